@@ -48,6 +48,9 @@ class FileInfo(BaseModel):
 
         Raises: ValueError in case `v` contains "..".
         """
+        if v.is_absolute():
+            raise ValueError("An absolute path is not relative to "
+                             "`dataset_root_path`.")
         if ".." in v.parts:
             raise ValueError("A .. is present in the path which could allow "
                              "directory traversal above `dataset_root_path`.")
